@@ -604,6 +604,51 @@ fn check_long(spec: &Spec, obs: &[usize], cc: &mut CaseCtx) {
     }
 }
 
+// ---- many states: indices beyond one byte (back-pointer tables, state iterators)
+
+/// ring model: state i moves to i+1 (mod s) with 9/10 and stays with 1/10, emits symbol i%2 with
+/// 9/10; all initial mass on `start`; optional end vector that lets only every third state end
+fn many_spec(s: usize, start: usize, with_end: bool) -> Spec {
+    let mut trans = vec![0u8; s * s];
+    let mut em = vec![0u8; s * 2];
+    let mut init = vec![0u8; s];
+    for i in 0..s {
+        trans[i * s + (i + 1) % s] = 9;
+        trans[i * s + i] = 1;
+        em[i * 2 + i % 2] = 9;
+        em[i * 2 + 1 - i % 2] = 1;
+    }
+    init[start] = 10;
+    let end = if with_end { Some((0..s).map(|i| if i % 3 == 0 { 10u8 } else { 1 }).collect()) } else { None };
+    Spec { s, m: 2, den: 10, trans, em, init, end }
+}
+
+/// (states, start state) of the many-states family
+fn many_params(tier: Tier) -> Vec<(usize, usize)> {
+    tier.pick(vec![(255, 250), (256, 250), (257, 250), (300, 290)], vec![(255, 250), (256, 250), (257, 250), (258, 3), (300, 290), (300, 0), (513, 505), (600, 250)])
+}
+
+fn run_many(tier: Tier, ctx: &mut Ctx) {
+    for (s, start) in many_params(tier) {
+        for with_end in [false, true] {
+            let spec = many_spec(s, start, with_end);
+            for t in tier.pick(vec![1usize, 2, 9, 24], vec![1usize, 2, 3, 9, 24, 60]) {
+                for shape in 0..4 {
+                    // shapes 2 (alternating) follows the ring when start is even; the others force stays
+                    let obs: Vec<usize> = long_obs(shape, t).iter().map(|&o| (o + start) % 2).collect();
+                    ctx.case(
+                        || json!({"kind": "many-states", "s": s, "start": start, "with_end": with_end, "t": t, "shape": shape}),
+                        |cc| {
+                            check_long(&spec, &obs, cc);
+                            cc.set_nontrivial(t >= 9);
+                        },
+                    );
+                }
+            }
+        }
+    }
+}
+
 fn run_long(tier: Tier, ctx: &mut Ctx) {
     for (si, spec) in long_specs().iter().enumerate() {
         for t in long_lengths(tier) {
@@ -1280,6 +1325,7 @@ impl Prop for C14Prop {
             "constructor_routes": route_fams,
             "dimension_shapes": {"A_rows, A_cols, B_rows, pi_len": format!("0..={}", d), "B_cols": "0..=2", "discrete_constructors": 8, "continuous_constructors": 3, "iterator_constructors_n": format!("0..={}", 2 * d + 2)},
             "gaussian": {"states": "1..=2", "lattice": "multiples of 1/2", "distributions_mean_sd": GAUSS_DISTS, "observation_values": GAUSS_OBS, "observation_lengths": format!("1..={}", gauss_tmax(tier)), "models": gauss_specs().len(), "constructors": ["with_float", "with_prob", "new"]},
+            "many_states": {"ring models (states, start state)": format!("{:?}", many_params(tier)), "end_vector": "none / only every third state may end", "observation_lengths": tier.pick("1,2,9,24", "1,2,3,9,24,60"), "oracle": "as long_sequences"},
             "long_sequences": {"models": long_specs().len(), "lengths": long_lengths(tier), "observation_shapes": "all 0, all 1, alternating, half/half", "oracle": "log-space forward and max-plus recursion with libm exp/ln"} })
     }
     fn units(&self, tier: Tier) -> Vec<String> {
@@ -1288,6 +1334,7 @@ impl Prop for C14Prop {
         v.extend((0..ROUTE_SHARDS).map(|i| format!("constructor-routes-{}", i)));
         v.push("dimensions-and-iterators".into());
         v.push("gaussian-emissions".into());
+        v.push("many-states".into());
         v
     }
     fn run_unit(&self, tier: Tier, unit: usize, ctx: &mut Ctx) {
@@ -1299,6 +1346,7 @@ impl Prop for C14Prop {
                 k if k <= ROUTE_SHARDS => run_routes(tier, k - 1, ctx),
                 k if k == ROUTE_SHARDS + 1 => run_shapes(tier, ctx),
                 k if k == ROUTE_SHARDS + 2 => run_gauss(tier, ctx),
+                k if k == ROUTE_SHARDS + 3 => run_many(tier, ctx),
                 _ => {}
             };
         }
@@ -1317,6 +1365,12 @@ impl Prop for C14Prop {
             return;
         }
         let us = |k: &str| case[k].as_u64().unwrap_or(0) as usize;
+        if case["kind"] == "many-states" {
+            let (s, start, t, shape) = (us("s").clamp(1, 2000), us("start"), us("t").clamp(1, 5000), us("shape"));
+            let spec = many_spec(s, start % s, case["with_end"].as_bool().unwrap_or(false));
+            let obs: Vec<usize> = long_obs(shape, t).iter().map(|&o| (o + start) % 2).collect();
+            return ctx.case(|| case.clone(), |cc| check_long(&spec, &obs, cc));
+        }
         match case["kind"].as_str().unwrap_or("") {
             "iter-ctor" => return ctx.case(|| case.clone(), |cc| check_iter_ctor(us("n").min(64), cc)),
             "shape" => return ctx.case(|| case.clone(), |cc| check_shape(us("a0").min(16), us("a1").min(16), us("bn").min(16), us("bm").min(16), us("pin").min(16), cc)),
